@@ -142,6 +142,9 @@ def make_model(gen):
     else:
         A = rs.randn(npar, npar)
         Q = A @ A.T * 1e-6 + np.eye(npar) * 1e-8
+    if gen.get('qscale'):
+        # the same structure at another magnitude (a covariance in other units; values far below 1e-16 are still values)
+        Q = Q * float(gen['qscale'])
     Qt = [[None] * npar for _ in range(npar)]
     for i in range(npar):
         for j in range(i, npar):
